@@ -405,6 +405,9 @@ dateutils_verif_probe(const char *site, long a, long b, long c, long d)
 		if ((unsigned long)b != n_read_bytes) {
 			verif_fail(site, "bytes-read-mismatch", a, b, (long)n_read_bytes, d);
 		}
+		if (a != b) {
+			verif_fail(site, "bytes-not-conserved", a, b, (long)n_read_bytes, d);
+		}
 	} else if (!strcmp(site, "dexpr_shared")) {
 		verif_fail(site, "node-reachable-twice", a, b, c, d);
 	} else if (!strcmp(site, "dexpr_shape")) {
